@@ -473,6 +473,12 @@ def indicator_clauses(S, ret, A, pred, witness=None, tag="indicator"):
     out.append((f"{tag}:stored-rows-satisfy-the-predicate", T.ForAll([k], z3.Implies(z3.And(0 <= k, T.tz(k < m)), pred(rf(k))))))
     if witness == "skip":
         return out
+    if isinstance(witness, list):
+        # one clause per block of the result: (which rows the block is responsible for, where such a row sits)
+        for bi, (resp, pos) in enumerate(witness):
+            out.append((f"{tag}:every-row-satisfying-the-predicate-is-stored(block-{bi + 1})", T.ForAll(
+                [r], z3.Implies(z3.And(N.INRNG(srow, r), pred(r), resp(r)), z3.And(0 <= pos(r), T.tz(pos(r) < m), rf(pos(r)) == r)), [N.INRNG(srow, r)])))
+        return out
     if witness is not None:
         out.append((f"{tag}:every-row-satisfying-the-predicate-is-stored(witness)", T.ForAll(
             [r], z3.Implies(z3.And(N.INRNG(srow, r), pred(r)), z3.And(0 <= witness(r), T.tz(witness(r) < m), rf(witness(r)) == r)), [N.INRNG(srow, r)])))
@@ -555,7 +561,11 @@ class _ScalarCompare(Contract):
             pred = lambda r: op(den(A, r), den(B, r))
             # soundness and well-formedness only: "every position satisfying the predicate is stored" needs
             # a path-dependent witness through three filtered blocks and is left to the bounded stand-in
-            for cl in indicator_clauses(S, ret, A, pred, "skip", tag="sparse"):
+            wit = type(self).sparse_witness(S, A, B) if getattr(type(self), "sparse_witness", None) else "skip"
+            for cl in getattr(S, "_cw_lemmas", []):
+                yield cl
+            S._cw_lemmas = []
+            for cl in indicator_clauses(S, ret, A, pred, wit if wit is not None else "skip", tag="sparse"):
                 yield cl
             return
         pred = _den_pred(A, lambda stored, v: z3.If(stored, op(v, c), op(z3.RealVal(0), c)))
@@ -577,8 +587,82 @@ class _ScalarCompare(Contract):
             yield cl
 
 
+def _mentions(term, const):
+    """Does the z3 term contain the given constant?"""
+    if not (T.is_sym(term) and T.is_sym(const)):
+        return False
+    stack, seen = [term], set()
+    while stack:
+        u = stack.pop()
+        if u.eq(const):
+            return True
+        if u.get_id() in seen:
+            continue
+        seen.add(u.get_id())
+        if z3.is_app(u):
+            stack.extend(u.children())
+    return False
+
+
+def _compare_witness(S, A, B):
+    """Where a row satisfying the comparison sits in the result of the sparse branch of `_compare`: four blocks, each
+    a gathered list of rows (row difference / intersection, by contract) optionally filtered by a Boolean selection --
+    rows only S stores, rows only T stores, common rows, and (for <= / >=) the positions absent from both.  A block
+    is missing on the paths where its operand stores nothing, its filter on the paths where the gathered list is empty."""
+    g = S.body_ghosts
+    fa, fb = A.ghost["find"], B.ghost["find"]
+    srow = A.ghost["srow"]
+    subsA, subsB = A.fields["subs"], B.fields["subs"]
+    sd = list(zip(g.get("callargs:tt_setdiff_rows", []), g.get("call:tt_setdiff_rows", [])))
+    it = list(zip(g.get("callargs:tt_intersect_rows", []), g.get("call:tt_intersect_rows", [])))
+    sels = g.get("select@src", [])
+    same = lambda x, y: (T.is_sym(x) and T.is_sym(y) and x.eq(y)) or (not T.is_sym(x) and not T.is_sym(y) and x == y)
+    pick = lambda calls, first: next((r for a_, r in calls if a_.get("MatrixA") is first), None)
+    sd1, sd2, in3 = pick(sd, subsA), pick(sd, subsB), pick(it, subsA)
+    zero_sd = [r for a_, r in sd if a_.get("MatrixA") is not subsA and a_.get("MatrixA") is not subsB]
+    zero_in = [r for a_, r in it if a_.get("MatrixA") is not subsA]
+
+    def block(res, key):
+        """(length, position of the source index `key` inside the block)"""
+        if res is None:
+            return 0, (lambda r: z3.IntVal(0))
+        L = T.tz(res.shape[0])
+        where = res.ghost["where"]
+        f = next((s_ for s_ in sels if _mentions(T.tz(s_["mask"].shape[0]), L)), None)  # the filter applied to this list (mask as long as the list)
+        if f is None:
+            return L, (lambda r: where(key(r)))
+        return f["K"], (lambda r: f["rk"](where(key(r))))
+    K1, p1 = block(sd1, fa)
+    K2, p2 = block(sd2, fb)
+    K3, p3 = block(in3, fa)
+    S._cw_lemmas = []
+    if zero_sd and zero_in:
+        wx, wi = zero_sd[0].ghost["where"], zero_in[0].ghost["where"]
+        p4 = lambda r: wi(wx(N.RAVELC(srow, r)))
+        # stepping stones for the last block: a position absent from S (from T) is a row of the gathered list of S's (T's)
+        # absent positions, at the index the row-difference contract names
+        zin_args = next(a_ for a_, r_ in it if a_.get("MatrixA") is not subsA)
+        X, Y = zin_args["MatrixA"], zin_args["MatrixB"]
+        if isinstance(X, Arr) and isinstance(Y, Arr) and len(zero_sd) > 1:
+            rx, ry = N.ensure_rows(S.ctx, X), N.ensure_rows(S.ctx, Y)
+            wy = zero_sd[1].ghost["where"]
+            r = z3.Const("cw!r", N.Row)
+            lin = lambda r_: N.RAVELC(srow, r_)
+            S._cw_lemmas = [
+                ("lemma:absent-from-S-is-a-row-of-the-first-gathered-list", T.ForAll([r], z3.Implies(z3.And(N.INRNG(srow, r), fa(r) < 0), z3.And(0 <= wx(lin(r)), T.tz(wx(lin(r)) < X.shape[0]), rx(wx(lin(r))) == r)), [N.INRNG(srow, r)]), "lemma"),
+                ("lemma:absent-from-T-is-a-row-of-the-second-gathered-list", T.ForAll([r], z3.Implies(z3.And(N.INRNG(srow, r), fb(r) < 0), z3.And(0 <= wy(lin(r)), T.tz(wy(lin(r)) < Y.shape[0]), ry(wy(lin(r))) == r)), [N.INRNG(srow, r)]), "lemma"),
+            ]
+    else:
+        p4 = lambda r: z3.IntVal(0)
+    return [(lambda r: z3.And(fa(r) >= 0, fb(r) < 0), p1),
+            (lambda r: z3.And(fa(r) < 0, fb(r) >= 0), lambda r: K1 + p2(r)),
+            (lambda r: z3.And(fa(r) >= 0, fb(r) >= 0), lambda r: K1 + K2 + p3(r)),
+            (lambda r: z3.And(fa(r) < 0, fb(r) < 0), lambda r: K1 + K2 + K3 + p4(r))]
+
+
 @register
 class sp_lt(_ScalarCompare):
+    sparse_witness = staticmethod(_compare_witness)
     qual = Q + "__lt__"
     sparse_case = True
     doc = "S < c (scalar): well-formed indicator of exactly the positions where Den(S) < c (implicit zeros included when 0 < c).  S < T (sparse, same shape): the result is well-formed and every stored position satisfies Den(S) < Den(T) (soundness; completeness bounded)."
@@ -587,6 +671,7 @@ class sp_lt(_ScalarCompare):
 
 @register
 class sp_le(_ScalarCompare):
+    sparse_witness = staticmethod(_compare_witness)
     qual = Q + "__le__"
     sparse_case = True
     doc = "S <= c (scalar): indicator of exactly the positions where Den(S) <= c."
@@ -595,6 +680,7 @@ class sp_le(_ScalarCompare):
 
 @register
 class sp_gt(_ScalarCompare):
+    sparse_witness = staticmethod(_compare_witness)
     qual = Q + "__gt__"
     sparse_case = True
     doc = "S > c (scalar): indicator of exactly the positions where Den(S) > c."
@@ -603,6 +689,7 @@ class sp_gt(_ScalarCompare):
 
 @register
 class sp_ge(_ScalarCompare):
+    sparse_witness = staticmethod(_compare_witness)
     qual = Q + "__ge__"
     sparse_case = True
     doc = "S >= c (scalar): indicator of exactly the positions where Den(S) >= c."
@@ -616,12 +703,55 @@ class sp_eq(_ScalarCompare):
     doc = "S == c (scalar): indicator of exactly the positions where Den(S) == c (c == 0: the implicit zeros)."
     op = staticmethod(lambda v, c: v == c)
 
+    @staticmethod
+    def sparse_witness(S, A, B):
+        """Where a row with Den(S) == Den(T) sits in the result of the sparse branch: first the positions where both are
+        zero (absent rows of S, intersected with the absent rows of T), then the common stored rows with equal values."""
+        g = S.body_ghosts
+        sd, it = g.get("call:tt_setdiff_rows"), g.get("call:tt_intersect_rows")
+        sels = g.get("select@src", [])
+        if not sd or not it:
+            return None
+        fa, fb = A.ghost["find"], B.ghost["find"]
+        srow = A.ghost["srow"]
+        where_x = sd[0].ghost["where"]
+        where_i = it[0].ghost["where"]
+        Kz = T.tz(it[0].shape[0])
+        s1 = sels[0] if sels else None
+        s2 = sels[1] if len(sels) > 1 else None
+        def second(r):
+            if s1 is None:
+                return z3.IntVal(0)
+            if s2 is None:
+                return s1["rk"](fa(r))
+            return s2["rk"](s1["rk"](fa(r)))
+        return lambda r: z3.If(z3.And(fa(r) < 0, fb(r) < 0), where_i(where_x(N.RAVELC(srow, r))), Kz + second(r))
+
 
 @register
 class sp_ne(_ScalarCompare):
     qual = Q + "__ne__"
-    doc = "S != c (scalar): indicator of exactly the positions where Den(S) != c."
+    sparse_case = True
+    doc = "S != c (scalar): indicator of exactly the positions where Den(S) != c.  S != T (sparse, same shape): the result is well-formed and every stored position satisfies Den(S) != Den(T) (soundness; completeness bounded)."
     op = staticmethod(lambda v, c: v != c)
+
+    @staticmethod
+    def sparse_witness(S, A, B):
+        """Where a row with Den(S) != Den(T) sits in the result of the sparse branch: three blocks -- rows only S stores,
+        rows only T stores, rows both store with different values -- each a Boolean selection; a block is missing on the
+        paths where its operand stores nothing."""
+        nA, nB = A.ghost["n"], B.ghost["n"]
+        fa, fb = A.ghost["find"], B.ghost["find"]
+        sels = S.body_ghosts.get("select@src", [])
+        same = lambda x, y: (T.is_sym(x) and T.is_sym(y) and x.eq(y)) or (not T.is_sym(x) and not T.is_sym(y) and x == y)
+        onA = [g for g in sels if same(g["mask"].shape[0], nA)]
+        onB = [g for g in sels if same(g["mask"].shape[0], nB)]
+        zero = dict(K=0, rk=lambda i: z3.IntVal(0))
+        s1 = onA[0] if onA else zero          # rows of S not stored by T
+        s2 = onB[0] if onB else zero          # rows of T not stored by S
+        s3 = onA[1] if len(onA) > 1 else zero  # common rows with different values
+        return lambda r: z3.If(z3.And(fa(r) >= 0, fb(r) < 0), s1["rk"](fa(r)),
+                               z3.If(z3.And(fa(r) < 0, fb(r) >= 0), s1["K"] + s2["rk"](fb(r)), s1["K"] + s2["K"] + s3["rk"](fa(r))))
 
 
 def _lam(src):
@@ -1681,3 +1811,36 @@ class sp_elemfun(Contract):
             yield "nothing-stored", S.eq(m, 0)
             yield "every-image-is-zero", T.ForAll([k], z3.Implies(z3.And(0 <= k, k < n), Fv(k) == 0))
         yield "no-stored-zero", T.ForAll([t], z3.Implies(z3.And(0 <= t, T.tz(t < m)), T.tz(vals.fn(t, 0)) != 0))
+
+
+# ======================================================================= isequal (C03: exact comparison of two sparse tensors)
+
+@register
+class sp_isequal(Contract):
+    qual = Q + "isequal"
+    props = ("C03",)
+    doc = ("S.isequal(O) for two well-formed sptensors of ANY shapes (sparse x sparse branch): the answer is True exactly when the "
+           "shapes are equal and Den(S)(r) = Den(O)(r) at every subscript r of that shape -- independent of the stored order.  "
+           "Uses the contract of S - O at the call site.  One direction of one path (different counts of stored entries => the "
+           "tensors differ) needs counting and rests on lemma L10: two well-formed zero-free sparse tensors with the same "
+           "denotation store equally many entries (both store exactly the support).")
+    inline = INLINE_CTOR + (Q + "nnz",)
+
+    def setup(self, S, case):
+        A = sym_sptensor(S, "A")
+        B = sym_sptensor(S, "B")
+        return dict(__self__=A, other=B)
+
+    def ensures(self, S, a, ret):
+        A, B = a["__self__"], a["other"]
+        srow = A.ghost["srow"]
+        r = z3.Const("ie!r", N.Row)
+        same_shape = shape_equal(S, A.fields["shape"], B.fields["shape"])
+        same_den = T.ForAll([r], z3.Implies(N.INRNG(srow, r), den(A, r) == den(B, r)), [N.INRNG(srow, r)])
+        # lemma L10 (counting; assumed): equal shapes and equal denotations => equally many stored entries
+        S.ctx.assume(z3.Implies(z3.And(same_shape, same_den), A.ghost["n"] == B.ghost["n"]),
+                     trusted="lemma:L10 two well-formed zero-free sparse tensors of one shape with the same denotation store equally many entries (both store exactly the support; counting, assumed)")
+        yield "answers-with-a-boolean", isinstance(ret, bool) or (T.is_sym(ret) and T.sort_of(ret) == "bool")
+        rb = ret if not isinstance(ret, bool) else z3.BoolVal(ret)
+        yield "true-only-for-equal-shape-and-denotation", z3.Implies(rb, z3.And(same_shape, same_den))
+        yield "true-for-equal-shape-and-denotation", z3.Implies(z3.And(same_shape, same_den), rb)
